@@ -79,6 +79,66 @@ def strategy(tier):
     return strat()
 
 
+TEMPLATES = (
+    "f('д'); g(d,\n  e)\nh = 1",
+    "if 'é': r = (a,\n b)\nz = 0",
+    "class Ü: x = {1:\n 2}\ny = x",
+    "def f(ä, b=[1,\n 2]): pass; q = (ä,\n b)",
+    "x = 'é'; y = [a,\n b]; z = 1",
+    "try:\n    a = 'ü'; b = f(c,\n  d)\nexcept E as e: h = (e,\n 1)\nfinally: k = 1",
+    "match q:\n    case 'é': r = [a,\n b]\n    case _: pass",
+    "@d('é')\n@e(a,\n  b)\ndef f(): pass",
+    "for i in 'ñ': j = {i:\n 1}\nelse: k = 2",
+    "with a as b: c = 'ö'; d = (c,\n b)",
+    "while 'é': x = (1 +\n 2); break",
+    "async def f(): await g('é'); h = [1,\n 2]",
+    "w = lambda ü: (ü,\n 1); v = 2",
+    "if a:\n    b = 'é'; c = f(d,\n      e)\nelif g: h = 'ü'; i = (j,\n k)\nelse: l = 'ö'; m = [n,\n o]",
+    "x = f'{a}é{b!r:>{w}}'; y = (a,\n b)",
+    "def f():\n    '''dé'''; x = [1,\n 2]\n    return x",
+    "a = b = 'é' \\\n    'ü'; c = (d,\n e)",
+)
+
+
+def enumerate_cases(tier, shard, nshards, seed):
+    """Token replacement grid: on every template (same-line statements after non-ASCII text, multi-line nodes, handlers, cases, decorators, ...)
+    and every synthetic program, each NAME / NUMBER / STRING token is replaced once by a token of the same kind and a different length through
+    put_src(action='reparse'), from the root."""
+
+    import io
+    import keyword
+    import tokenize
+
+    k = 0
+
+    for src in TEMPLATES + gen.SYN_PROGRAMS:
+        try:
+            toks = list(tokenize.generate_tokens(io.StringIO(src).readline))
+        except Exception:
+            continue
+
+        lines = src.split('\n')
+
+        for t in toks:
+            if t.type == tokenize.NAME and not keyword.iskeyword(t.string) and t.string not in ('match', 'case', 'type', '_'):
+                texts = ('zz9é', 'q')
+            elif t.type == tokenize.NUMBER:
+                texts = ('12345',)
+            elif t.type == tokenize.STRING and '\n' not in t.string:
+                texts = ("'qü'",)
+            else:
+                continue
+
+            a = pos2off(lines, t.start[0] - 1, t.start[1])
+            b = pos2off(lines, t.end[0] - 1, t.end[1])
+
+            for text in texts:
+                k += 1
+
+                if k % nshards == shard:
+                    yield {'src': src, 'edits': [{'kind': 'put_src', 'o1': a, 'o2': 0, 'snap': 0, 'width': b - a, 'text': text}]}
+
+
 def shrinks(case):
     n = len(case['edits'])
 
